@@ -365,6 +365,11 @@ func load(cmdline, environ, envprefix []string, props *properties.Properties) (c
 		return nil, fmt.Errorf("glob.cache.size must be greater than zero")
 	}
 
+	// the metrics providers report on a ticker which panics for a non-positive interval
+	if cfg.Metrics.Interval <= 0 {
+		return nil, fmt.Errorf("metrics.interval must be greater than zero")
+	}
+
 	if cfg.Proxy.NoRouteStatus < 100 || cfg.Proxy.NoRouteStatus > 999 {
 		return nil, fmt.Errorf("proxy.noroutestatus must be between 100 and 999")
 	}
